@@ -6,7 +6,9 @@ spec = {
   "skeleton": {"n_nodes": 3, "edges": [[0,1],[1,2]]},
   "videos":   [{"h": 64, "w": 96, "kind": "rgb"|"gray_x"|"gray_y"|"texture"|"blobs", "n_frames": 3, "seed": 5}],
   "frames":   [{"video": 0, "frame_idx": 1,
-                "instances": [{"pts": [[x,y] | None, ...], "predicted": false, "score": 0.9}, ...]}],
+                "instances": [{"pts": [[x,y] | None, ...], "predicted": false, "score": 0.9,
+                               "hidden": [[x,y] | None, ...]   # optional, see build_labels
+                               }, ...]}],
 }
 
 Frames are written as PNG files (lossless, any size) into a scratch directory and wrapped
@@ -122,10 +124,20 @@ def build_labels(spec, outdir, save_slp=None, embed=False):
                 [[math.nan, math.nan] if p is None else [float(p[0]), float(p[1])] for p in inst["pts"]],
                 dtype=np.float64,
             ).reshape(sk["n_nodes"], 2)
+            # optional "hidden": per node [x, y] | None.  A node that is missing (pts[k] is None) and
+            # has hidden[k] is stored the way the SLEAP GUI stores a node toggled to "not visible":
+            # finite coordinates in points["xy"], points["visible"] False (inst.numpy() -> NaN).
+            hidden = inst.get("hidden") or []
+            hid = [k for k, hp in enumerate(hidden) if hp is not None and inst["pts"][k] is None]
+            for k in hid:
+                pts[k] = [float(hidden[k][0]), float(hidden[k][1])]
             if inst.get("predicted"):
-                insts.append(sio.PredictedInstance.from_numpy(points_data=pts, skeleton=skel, score=float(inst.get("score", 0.9))))
+                obj = sio.PredictedInstance.from_numpy(points_data=pts, skeleton=skel, score=float(inst.get("score", 0.9)))
             else:
-                insts.append(sio.Instance.from_numpy(points_data=pts, skeleton=skel))
+                obj = sio.Instance.from_numpy(points_data=pts, skeleton=skel)
+            for k in hid:
+                obj.points["visible"][k] = False
+            insts.append(obj)
         lfs.append(sio.LabeledFrame(video=videos[f["video"]], frame_idx=f["frame_idx"], instances=insts))
     labels = sio.Labels(labeled_frames=lfs, videos=videos, skeletons=[skel])
     info = {"skeleton": skel, "videos": videos}
